@@ -20,7 +20,7 @@
    describeCallableType  :819ff (parameters, return type, block of both sides)       MEChild ; MAChild (a IS a *CallableType)
 
    The point of the model: the actual type is decomposed only by a Go type assertion to the constructor
-   (`actual.(*types.StructType)` ...), which a *TypeAliasType never satisfies: an alias on the actual side is NEVER
+   (`actual.( *types.StructType )` ...), which a *TypeAliasType never satisfies: an alias on the actual side is NEVER
    replaced by the type it resolves to (it is reported as a whole).  So the actual component of the pair only ever
    moves from a constructor node to one of its contained types (MAChild) - there is no environment for the actual
    side in the model at all - and that is the guard of the describer's recursion on the actual side: it is structural
